@@ -667,3 +667,155 @@ Proof.
     subst chains. split; [reflexivity|]. simpl. intros; lia. }
   rewrite (rep_W _ _ _ _ R), (rep_B _ _ _ _ R). reflexivity.
 Qed.
+
+(** ------------------------------------------------------------------------------------------
+    8. Histories of assignments on one Sample object: the summaries depend on the CURRENT samples
+       and weights only, i.e. they are those of a freshly constructed Sample holding them        *)
+
+Lemma lookup_app_fresh (acc r : dict) k v :
+  ~ In k (keys acc) -> lookup k (acc ++ (k, v) :: r) = Some v.
+Proof.
+  induction acc as [|[k' v'] acc IH]; simpl; intros Hn.
+  - now rewrite String.eqb_refl.
+  - destruct (String.eqb k k') eqn:E.
+    + apply String.eqb_eq in E. subst. exfalso. apply Hn. now left.
+    + apply IH. intro. apply Hn. now right.
+Qed.
+
+(** building [samples] from a dict whose keys are exactly the (distinct) parameter names, in that
+    order, returns this very dict *)
+Lemma samples_from_self : forall (d2 acc : dict),
+  NoDup (keys (acc ++ d2)) -> samples_from (keys d2) (acc ++ d2) acc = Some (acc ++ d2).
+Proof.
+  induction d2 as [|[n v] d2 IH]; intros acc Hnd; simpl.
+  - now rewrite app_nil_r.
+  - assert (Hfresh : ~ In n (keys acc)).
+    { unfold keys in *. rewrite map_app in Hnd. simpl in Hnd. apply NoDup_remove_2 in Hnd.
+      intro Hin. apply Hnd. apply in_or_app. now left. }
+    rewrite lookup_app_fresh by exact Hfresh.
+    rewrite dset_fresh by exact Hfresh.
+    replace (acc ++ (n, v) :: d2) with ((acc ++ [(n, v)]) ++ d2) by (rewrite <- app_assoc; reflexivity).
+    apply IH. rewrite <- app_assoc. exact Hnd.
+Qed.
+
+Lemma samples_self (d : dict) : NoDup (keys d) -> samples (keys d) d = Some d.
+Proof. intros H. unfold samples. apply (samples_from_self d []). exact H. Qed.
+
+Lemma keys_combine (names : list string) : forall (cols : list (list Qc)),
+  length cols = length names -> keys (combine names cols) = names.
+Proof.
+  induction names as [|n names IH]; destruct cols as [|c cols]; simpl; intros H; try reflexivity; try discriminate.
+  f_equal. apply IH. lia.
+Qed.
+
+Lemma samples_keys names outputs s : NoDup names -> samples names outputs = Some s -> keys s = names.
+Proof.
+  intros Hnd Hs. unfold samples in Hs. apply samples_from_nodup in Hs; [|exact Hnd|intros ? ? []].
+  destruct Hs as (cols & Hlen & Heq & _). simpl in Heq. subst s. apply keys_combine. exact Hlen.
+Qed.
+
+(** [d[k] = v] for a key that is present keeps the keys and their order *)
+Lemma dset_keys_present (d : dict) k v : In k (keys d) -> keys (dset d k v) = keys d.
+Proof.
+  induction d as [|[k' v'] d IH]; simpl; intros Hin; [contradiction|].
+  destruct (String.eqb k k') eqn:E; [reflexivity|]. simpl. f_equal. apply IH.
+  destruct Hin as [Heq|Hin]; [|exact Hin]. subst. rewrite String.eqb_refl in E. discriminate.
+Qed.
+
+(** assignments a caller may make: any weights; a new column for an existing parameter *)
+Definition op_wf (names : list string) (a : op) : Prop :=
+  match a with OSetW _ => True | OSetCol k _ => In k names end.
+
+Lemma step_keys names o a : keys (so_samples o) = names -> op_wf names a -> keys (so_samples (step o a)) = names.
+Proof.
+  intros Hk Hwf. destruct a as [w|k v]; simpl; [exact Hk|].
+  rewrite dset_keys_present; [exact Hk|]. rewrite Hk. exact Hwf.
+Qed.
+
+Lemma step_names o a : so_names (step o a) = so_names o.
+Proof. destruct a; reflexivity. Qed.
+
+Lemma run_keys names : forall ops o,
+  keys (so_samples o) = names -> Forall (op_wf names) ops -> keys (so_samples (run o ops)) = names.
+Proof.
+  induction ops as [|a ops IH]; intros o Hk Hwf; simpl; [exact Hk|].
+  inversion Hwf as [|? ? Ha Hr]. apply IH; [apply step_keys; assumption | exact Hr].
+Qed.
+
+Lemma run_names : forall ops o, so_names (run o ops) = so_names o.
+Proof. induction ops as [|a ops IH]; intros o; simpl; [reflexivity|]. now rewrite IH, step_names. Qed.
+
+(** Main statement.  After ANY sequence of assignments to [weights] and to columns of [samples], the
+    object is indistinguishable (for the summaries) from [Sample(outputs = its current samples,
+    parameter_names, weights = its current weights)]: same samples dict, same weights, hence the same
+    array, means and quantiles at every level.  Nothing of the constructor's arguments or of earlier
+    states survives. *)
+Theorem history_fresh (names : list string) (outputs : dict) (w0 : option (list Qc)) (o : sobj) (ops : list op) :
+  NoDup names -> construct names outputs w0 = Some o -> Forall (op_wf names) ops ->
+  let o' := run o ops in
+  exists f, construct names (so_samples o') (so_weights o') = Some f
+            /\ so_samples f = so_samples o' /\ so_weights f = so_weights o'
+            /\ so_array f = so_array o' /\ so_means f = so_means o'
+            /\ forall alpha, so_quantiles f alpha = so_quantiles o' alpha.
+Proof.
+  intros Hnd Hc Hwf o'. unfold construct in Hc.
+  destruct (samples names outputs) as [s|] eqn:Hs; [|discriminate]. inversion Hc; subst o. clear Hc.
+  assert (Hk : keys (so_samples o') = names).
+  { apply run_keys; [|exact Hwf]. simpl. eapply samples_keys; eassumption. }
+  pose proof (samples_self (so_samples o')) as Hs'. rewrite Hk in Hs'. specialize (Hs' Hnd).
+  unfold construct. rewrite Hs'. simpl.
+  eexists. split; [reflexivity|]. simpl. unfold so_array, so_means, so_quantiles. simpl. repeat split; reflexivity.
+Qed.
+
+(** the last assignment to [weights] is the one every later summary uses *)
+Theorem history_last_weights (o : sobj) (ops : list op) (w : option (list Q)) :
+  so_weights (run o (ops ++ [OSetW w])) = option_map (map Q2Qc) w
+  /\ so_samples (run o (ops ++ [OSetW w])) = so_samples (run o ops).
+Proof. unfold run. rewrite fold_left_app. simpl. split; reflexivity. Qed.
+
+(** the means of the model are the definition  sum w_i x_i / sum w_i  of each stored column *)
+Lemma opt_all_nth {A} : forall (l : list (option A)) (r : list A),
+  opt_all l = Some r -> length r = length l /\ forall j x, nth_error r j = Some x -> nth_error l j = Some (Some x).
+Proof.
+  induction l as [|[a|] l IH]; intros r H; simpl in H.
+  - inversion H. split; [reflexivity|]. intros [|j] x Hx; discriminate.
+  - destruct (opt_all l) as [r'|] eqn:E; [|discriminate]. inversion H; subst r. clear H.
+    destruct (IH r' eq_refl) as [Hl Hn]. split; [simpl; now rewrite Hl|].
+    intros [|j] x Hx; simpl in *; [now inversion Hx | apply Hn; exact Hx].
+  - discriminate.
+Qed.
+
+Theorem means_of_spec (s : dict) (w : option (list Qc)) (ms : list (string * Qc)) :
+  means_of s w = Some ms ->
+  length ms = length s
+  /\ forall j k v, nth_error ms j = Some (k, v) ->
+       exists col, nth_error s j = Some (k, col)
+                   /\ let w' := match w with None => repeat 1 (length col) | Some w => w end in
+                      length w' = length col /\ v = wsum w' col / sumq w'
+                      /\ (w <> None -> sumq w' <> 0).
+Proof.
+  unfold means_of. intros H. apply opt_all_nth in H as [Hl Hn]. rewrite map_length in Hl. split; [exact Hl|].
+  intros j k v Hj. apply Hn in Hj. rewrite nth_error_map in Hj.
+  destruct (nth_error s j) as [[k' col]|]; [|discriminate]. simpl in Hj.
+  destruct (average w col) as [a|] eqn:Ea; [|discriminate]. simpl in Hj. inversion Hj; subst k' a. clear Hj.
+  exists col. split; [reflexivity|]. cbv zeta. destruct w as [w|].
+  - unfold average in Ea. destruct (length w =? length col)%nat eqn:El; [|discriminate]. simpl in Ea.
+    destruct (qeqb (sumq w) 0) eqn:Ez; [discriminate|]. inversion Ea. apply Nat.eqb_eq in El.
+    repeat split; [exact El|]. intros _ Hz. unfold qeqb, Qc_eq_bool in Ez.
+    destruct (Qc_eq_dec (sumq w) 0); [discriminate|contradiction].
+  - rewrite average_none_is_unit_weights in Ea. inversion Ea. rewrite repeat_length.
+    repeat split. intros Hc. contradiction.
+Qed.
+
+(** on a freshly constructed object the state-based summaries are the constructor-based ones of
+    sections 2-3 ([samples_array], [sample_means], [model_quantiles]) *)
+Theorem construct_summaries names outputs w o :
+  construct names outputs w = Some o ->
+  so_array o = samples_array names outputs /\ so_means o = sample_means names outputs w
+  /\ (forall alpha, so_quantiles o alpha = model_quantiles names outputs w alpha)
+  /\ so_n o = n_samples names outputs.
+Proof.
+  unfold construct, samples_array, sample_means, model_quantiles, so_array, so_means, so_quantiles, so_n.
+  destruct (samples names outputs) as [s|]; [|discriminate]. intros H. inversion H; subst o. simpl.
+  repeat split; reflexivity.
+Qed.
